@@ -132,8 +132,26 @@ def _triple(tu, fn, arg, pre, o):
     """(ptr, bytes, id) that the pre-state bookkeeping associates with owner field o of object `arg`"""
     ptr = atom(("mem", tu.arg(fn, arg) + o.off, 8))
     if o.kind == "data":
-        return ptr, tu.obs(fn, pre, "mc"), tu.obs(fn, pre, "id")
-    return ptr, tu.obs(fn, pre, "cap").scale(8), tu.obs(fn, pre, "id")
+        return ptr, _entry_obs(tu, fn, arg, pre, "mc"), _entry_obs(tu, fn, arg, pre, "id")
+    return ptr, _entry_obs(tu, fn, arg, pre, "cap").scale(8), _entry_obs(tu, fn, arg, pre, "id")
+
+
+def _entry_obs(tu, fn, arg, pre, field):
+    """observer `field` of operand `arg` in its entry state.  Taken from the observer witness with the operand
+    substituted (a formula over the operand's entry-state fields) rather than from this witness's observer copy, which a
+    bulk copy with a symbolic destination may have clobbered as far as the memory model knows."""
+    if tu.has("w_observe") and "v" in tu.meta["w_observe"]["params"] and "o" in tu.meta["w_observe"]["params"]:
+        from .rules_cmp import deep_subst, argmap
+        t = tu.obs("w_observe", "o", field)
+        if not has_unknown_(t):
+            return deep_subst(t, argmap([(tu.argidx("w_observe", "v"), tu.argidx(fn, arg))]))
+    return tu.obs(fn, pre, field)
+
+
+def has_unknown_(t):
+    bad = []
+    walk_atoms(t, lambda a: bad.append(a) if a[0] == "unk" else None)
+    return bad
 
 
 def check_witness(ck, owners, fn, objs, rule, exits=("ret",)):
@@ -217,6 +235,15 @@ def check_witness(ck, owners, fn, objs, rule, exits=("ret",)):
             if xkind == "resume" and f.decide(("throws", _throw_seq(xguard))) is not True:
                 continue  # the exit is reached through a value-type operation that threw: outside the fault model
             ncases += 1
+            # inductive invariant (I5null, proved at every exit of every operation): an owner without a block records size 0
+            grew = False
+            for (p, b, i, arg, o) in olds:
+                if b is not None and f.decide(c_cmp("eq", p, ZERO)) is True and f.decide(c_cmp("eq", b, ZERO)) is None:
+                    f = f.copy() if not grew else f
+                    grew = True
+                    f.add(c_cmp("eq", b, ZERO))
+            if grew and (f.infeasible() or f.eval(simplify_cond(xguard, f)) is False):
+                continue
             _check_case(ck, owners, fn, objs, rule, sm, f, olds, finals, ea, ed, xkind)
         rec.count("ownership_cases", ncases)
 
